@@ -102,6 +102,8 @@ func (ch *ConnectionHandler) muxHandler(protocol string, downstreamConnection io
 			if err != nil {
 				return err
 			}
+			// PipeData leaves the side that reported end-of-stream open; always release the target connection.
+			defer streams.TryClose(upstreamConnection)
 			return streams.PipeData(downstreamConnection, upstreamConnection)
 		}
 	}
